@@ -198,6 +198,32 @@ def bf3_file_rules(prog, chk, pid, tier, want=("layout", "roundtrip")):
                     break
         if not okb and bad_rt is None:
             bad_rt = (label, whyb)
+    # ---- history: writing, editing the object, writing again gives the bytes of the CURRENT object (no stale sizes / addresses / ciphertext)
+    ta, tb, tc = R.syms("ha", 1), R.syms("hb", 3), R.syms("hc", 2)
+    b0, b1, b2 = R.syms("hx", 10), R.syms("hy", 18), R.syms("hz", 5)
+    src_h = ("def drv(sk, off, ta, tb, tc, b0, b1, b2):\n    c0 = Bf3Component({0xC1: ta}, b0)\n    c1 = Bf3Component({0xC1: ta, %d: %r}, b1, None, True)\n    f = Bf3File({}, [c0, c1])\n"
+             "    r1 = f.to_binary(off, sk)\n    c0.description[0xC3] = tb\n    r2 = f.to_binary(off, sk)\n    c1.blob = b2\n    c1.actual_len = len(b2)\n    f.components[0] = Bf3Component({0xC4: tc}, b0)\n    r3 = f.to_binary(off, sk)\n"
+             "    f.components.append(Bf3Component({}, b2))\n    r4 = f.to_binary(off, sk)\n    return (r1, r2, r3, r4)\n") % (enc_tag, bytes([enc_val]))
+    ex, res = stk.run(BF3Q, src_h, {"sk": sk, "off": C(5), "ta": sbytes(ta), "tb": sbytes(tb), "tc": sbytes(tc), "b0": sbytes(b0), "b1": sbytes(b1), "b2": sbytes(b2)})
+    bad_h = None
+    if res.dead or res.ret is None:
+        bad_h = "the write / edit / write sequence raises"
+    else:
+        encd = (enc_tag, [C(enc_val)])
+        states = [
+            [Comp([(0xC1, ta)], b0, False), Comp([(0xC1, ta), encd], b1, True)],
+            [Comp([(0xC1, ta), (0xC3, tb)], b0, False), Comp([(0xC1, ta), encd], b1, True)],
+            [Comp([(0xC4, tc)], b0, False), Comp([(0xC1, ta), encd], b2, True)],
+            [Comp([(0xC4, tc)], b0, False), Comp([(0xC1, ta), encd], b2, True), Comp([], b2, False)],
+        ]
+        for k, (r_, st_) in enumerate(zip(unsnap(res.ret).args[0], states)):
+            why = S._cmp(R.flat(ex, res, r_), ref_binary(st_, 5, sk), "the documented layout of the current object")
+            if why:
+                bad_h = "write number %d (after %s): %s" % (k + 1, ["creation", "adding a tag", "replacing a component and a payload", "appending a component"][k], why)
+                break
+    if "layout" in want or "roundtrip" in want:
+        chk.require(bad_h is None, P("stack-bf3-rewrite"), fw.qualname, "write, add a tag, write, replace component / payload, write, append, write", "%s:%d" % (fw.file, fw.lineno),
+                    "every write produces the documented bytes of the object's current state: nothing computed for an earlier write (directory size, addresses, ciphertext, MACs) is reused after an edit", bad_h or "")
     if "layout" in want:
         chk.require(bad_layout is None, P("stack-bf3-layout"), fw.qualname, "%d file shapes, symbolic contents / tag values / session key" % n, "%s:%d" % (fw.file, fw.lineno),
                     "for every enumerated shape the written bytes equal, term by term, the documented layout (directory size, entries with absolute addresses, stored and declared lengths, payload CBC-MAC, TLVs in insertion order, entry CBC-MAC with IV = entry index, sentinel, payloads back to back; encrypted payloads as CBC of the zero-padded content)",
